@@ -326,16 +326,19 @@ def cases(tier, rng):
             ns = rng.choice([1, 2, 3])
             nodes = [{"k": "stream", "chunks": _cut([rng.randrange(-5, 9) for _ in range(n)], mask)} for _ in range(ns)]
             for j in range(rng.randrange(1, 6)):
-                i = len(nodes)
-                a = {"node": rng.randrange(i)}
-                b = {"node": rng.randrange(i)} if rng.random() < 0.6 else {"const": rng.randrange(-3, 4)}
+                # operands are numeric nodes: a comparison's boolean buffers are only used as masks or results
+                # (NumPy adds booleans as a logical or and refuses to subtract them: not integer arithmetic)
+                numeric = [q for q, nd in enumerate(nodes) if nd.get("f") != "gt"]
+                a = {"node": rng.choice(numeric)}
+                b = {"node": rng.choice(numeric)} if rng.random() < 0.6 else {"const": rng.randrange(-3, 4)}
                 if rng.random() < 0.3:
                     a, b = b, a
                 nodes.append({"k": "comp", "f": rng.choice(["add", "sub", "mul", "gt"]), "a": a, "b": b})
             if rng.random() < 0.5:
                 yield {"op": "graph", "nodes": nodes, "root": rng.randrange(len(nodes)) if rng.random() < 0.4 else len(nodes) - 1}
             elif rng.random() < 0.5:
-                comps = [i for i, nd in enumerate(nodes) if nd["k"] == "comp"]
+                comps = [i for i, nd in enumerate(nodes) if nd["k"] == "comp" and nd.get("f") != "gt"] or \
+                    [i for i, nd in enumerate(nodes) if nd["k"] == "comp"]
                 if rng.random() < 0.5:                       # index a computed node by a comparison of another
                     nodes.append({"k": "comp", "f": "gt", "a": {"node": rng.randrange(len(nodes))}, "b": {"const": rng.randrange(-2, 5)}})
                     nodes.append({"k": "comp", "f": "sel", "a": {"node": rng.choice(comps)}, "b": {"node": len(nodes) - 1}})
